@@ -15,8 +15,14 @@ walks the trees:
                         stays nil: at run time its variables are the globals of the environment.
                         Function 0 (the template's main function) exists from the start.
 * `use f v`             `nonLocalVarIndex` meets the predeclared variable `v` while emitting `f`.
-* `pkgVar x`            `createScriggoPackageVar`: a variable declared by an imported / extending
-                        template file takes the next place in the same slice of globals.
+* `pkgVar k x`          `createScriggoPackageVar`: a variable `x` declared by the template file that is
+                        package `k` takes the next place in the same slice of globals and is bound,
+                        by name, in `k`.
+* `bindImport t k x`    `emitImport` → `bindScriggoPackageVar`: the variable `x` of the imported
+                        package `k` is bound *by name* — unexported names included — in the importing
+                        package `t` (0 = the main file).
+`declFunc f k` says which package `f` belongs to (`em.pkg` while it is emitted); a function literal
+belongs to the package of the enclosing function.
 * `closure p f ups`     a function literal `f` (every macro declared in a template file is one)
                         met while emitting `p`: `setFunctionVarRefs(f, ups)`, `ups` the `Upvars`
                         the checker collected for it (predeclared variables and captured locals).
@@ -39,7 +45,7 @@ structure Global where
 /-- one entry of `ast.Func.Upvars` -/
 inductive Upvar
   | predef (v : String)   -- `Declaration == nil`: a predeclared variable
-  | loc                   -- a variable of an enclosing function
+  | loc (name : String)   -- a variable of an enclosing function (`setClosureVar(fn, name, i)`)
   deriving DecidableEq, Repr
 
 /-- one entry of `runtime.Function.VarRefs` -/
@@ -49,10 +55,11 @@ inductive Ref
   deriving DecidableEq, Repr
 
 inductive Event
-  | declFunc (f : Fn)
+  | declFunc (f : Fn) (pkg : Nat)
   | use (f : Fn) (v : String)
   | closure (p f : Fn) (ups : List Upvar)
-  | pkgVar (x : String)
+  | pkgVar (pkg : Nat) (x : String)
+  | bindImport (target src : Nat) (x : String)
   deriving Repr
 
 /-- What is known of a function once it exists. For a function literal: its `VarRefs` and the
@@ -82,6 +89,8 @@ structure Cfg where
   tmplPkg : String
   /-- `UsedVars`: the package whose globals are reported (`none`: all) -/
   usedPkg : Option String
+  /-- `nonLocalVarIndex`: the order of its three lookups -/
+  lookupOrder : List Lookup
 
 /-- the code as it is -/
 def Cfg.code : Cfg :=
@@ -91,7 +100,7 @@ def Cfg.code : Cfg :=
     ixPkg := upvarIndexPkgSource, ixName := upvarIndexNameSource,
     owner := upvarRefOwner, share := oneGlobalPerVariable,
     valueInit := Gen.VarBinding.valueInit, pointerInit := Gen.VarBinding.pointerInit,
-    tmplPkg := templatePkgName, usedPkg := usedVarsPkg }
+    tmplPkg := templatePkgName, usedPkg := usedVarsPkg, lookupOrder := Gen.VarBinding.lookupOrder }
 
 /-- a name in the checker / in `nonLocalVarIndex`, for the global identifier `v` -/
 def Cfg.nameOf (c : Cfg) (src : NameSource) (v : String) : String :=
@@ -126,10 +135,17 @@ structure Store where
   /-- `predefVarRef[fn][v]` -/
   ref : Fn → String → Option Nat
   kind : Fn → Option FnKind
+  /-- `closureVars[fn][name]` -/
+  closureVar : Fn → String → Option Nat
+  /-- `scriggoPackageVarRefs[pkg][name]` -/
+  pkgVarRef : Nat → String → Option Nat
+  /-- the package a function is emitted in -/
+  fnPkg : Fn → Nat
 
 def Store.init : Store :=
   { globals := [], gidx := fun _ => none, ref := fun _ _ => none,
-    kind := fun f => if f = 0 then some .top else none }
+    kind := fun f => if f = 0 then some .top else none,
+    closureVar := fun _ _ => none, pkgVarRef := fun _ _ => none, fnPkg := fun _ => 0 }
 
 def Store.setRef (s : Store) (f : Fn) (v : String) (i : Nat) : Store :=
   { s with ref := fun f' v' => if f' = f ∧ v' = v then some i else s.ref f' v' }
@@ -155,8 +171,9 @@ def setRefs (c : Cfg) (p f : Fn) : List Upvar → Nat → Store → List Ref × 
     let s2 := r.2.setRef (match c.owner with | .newFunction => f | .currentFunction => p) v i
     let rest := setRefs c p f us (i + 1) s2
     (.var r.1 :: rest.1, rest.2)
-  | .loc :: us, i, s =>
-    let rest := setRefs c p f us (i + 1) s
+  | .loc name :: us, i, s =>
+    let s1 := { s with closureVar := fun f' n => if f' = f ∧ n = name then some i else s.closureVar f' n }
+    let rest := setRefs c p f us (i + 1) s1
     (.reg :: rest.1, rest.2)
 
 /-- variable `k` of function `f` at run time: the global it is (`OpLoadFunc`, `OpCallFunc`) -/
@@ -185,16 +202,36 @@ def admits (s : Store) (f : Fn) (v : String) : Bool :=
 def admitsAll (s : Store) (p : Fn) : List Upvar → Bool
   | [] => true
   | .predef v :: us => admits s p v && admitsAll s p us
-  | .loc :: us => admitsAll s p us
+  | .loc _ :: us => admitsAll s p us
+
+/-- `varStore.nonLocalVarIndex` for an identifier the checker resolved to the predeclared variable
+`v` (`ti.IsNative()` holds), with `em.fb.fn = f`: the three lookups in the order of the code. A hit
+by *name* among the closure or package variables returns that variable's index — the reference is
+then emitted as whatever variable has that name (recorded in `ref` as the emitted index). -/
+def nonLocalVarIndexFrom (c : Cfg) (s : Store) (f : Fn) (v : String) : List Lookup → Nat × Store
+  | [] => (0, s)
+  | .predefined :: _ => predefVarIndex c s f v (c.useGlobal v)
+  | .closureVars :: rest =>
+    match s.closureVar f v with
+    | some i => (i, s.setRef f v i)
+    | none => nonLocalVarIndexFrom c s f v rest
+  | .packageVars :: rest =>
+    match s.pkgVarRef (s.fnPkg f) v with
+    | some i => (i, s.setRef f v i)
+    | none => nonLocalVarIndexFrom c s f v rest
+
+def nonLocalVarIndex (c : Cfg) (s : Store) (f : Fn) (v : String) : Nat × Store :=
+  nonLocalVarIndexFrom c s f v c.lookupOrder
 
 /-- one emission event; `none` = not an emission the checker and emitter produce -/
 def step (c : Cfg) (s : Store) : Event → Option Store
-  | .declFunc f =>
+  | .declFunc f pkg =>
     match s.kind f with
     | some _ => none
-    | none => some { s with kind := fun f' => if f' = f then some .top else s.kind f' }
+    | none => some { s with kind := fun f' => if f' = f then some .top else s.kind f',
+                            fnPkg := fun f' => if f' = f then pkg else s.fnPkg f' }
   | .use f v =>
-    if admits s f v then some (predefVarIndex c s f v (c.useGlobal v)).2 else none
+    if admits s f v then some (nonLocalVarIndex c s f v).2 else none
   | .closure p f ups =>
     match s.kind f with
     | some _ => none
@@ -202,9 +239,14 @@ def step (c : Cfg) (s : Store) : Event → Option Store
       if (s.kind p).isSome && admitsAll s p ups then
         let r := setRefs c p f ups 0 s
         let vars := r.1.map (loadVar r.2 p)
-        some { r.2 with kind := fun f' => if f' = f then some (.closure p r.1 vars) else r.2.kind f' }
+        some { r.2 with kind := fun f' => if f' = f then some (.closure p r.1 vars) else r.2.kind f',
+                        fnPkg := fun f' => if f' = f then r.2.fnPkg p else r.2.fnPkg f' }
       else none
-  | .pkgVar x => some { s with globals := s.globals ++ [⟨c.tmplPkg, x⟩] }
+  | .pkgVar k x =>
+    some { s with globals := s.globals ++ [⟨c.tmplPkg, x⟩],
+                  pkgVarRef := fun k' x' => if k' = k ∧ x' = x then some s.globals.length else s.pkgVarRef k' x' }
+  | .bindImport t k x =>
+    some { s with pkgVarRef := fun k' x' => if k' = t ∧ x' = x then s.pkgVarRef k x else s.pkgVarRef k' x' }
 
 def run (c : Cfg) : List Event → Store → Option Store
   | [], s => some s
